@@ -107,6 +107,10 @@ def run(chk):
             variants.append(("%s:bytes:%d" % (bname, k), bytes(b)))
     # self-including file and mutual includes
     variants.append(("selfinclude", b"letter a 1\ninclude SELF\n"))
+    # a cycle with fan-out: two include lines on it (every level of the recursion would re-enter the cycle if compilation
+    # went on behind the first failing line)
+    variants.append(("selfinclude_twice", b"letter a 1\ninclude SELF\nletter b 12\ninclude SELF\nletter c 14\n"))
+    variants.append(("selfinclude_thrice", b"include SELF\ninclude SELF\ninclude SELF\n"))
     # faults that every file compiles with but that the finalisation of the table rejects (the table then sits in the cache:
     # every later lookup has to reject it again, with a message)
     fin = {
@@ -124,7 +128,7 @@ def run(chk):
         lines = []
         for j, (key, data) in enumerate(chunk):
             p = work / ("v%d_%d.utb" % (b0, j))
-            if key == "selfinclude":
+            if key.startswith("selfinclude"):
                 data = data.replace(b"SELF", p.name.encode())
             p.write_bytes(data)
             lines += [goodcase, "V %s" % p, "V %s" % p, goodcase]
